@@ -294,8 +294,12 @@ def make(desc: dict):
                            **desc.get("kw", {}))
     if w == "multi":
         kw = dict(desc.get("kw", {}))
-        return M["multi"](observation_space=_obs_space(desc.get("obs", "dict")), num_outputs=4,
-                          cnn_config=dict(channel_size=[16], kernel_size=[3], stride_size=[1], min_channel_size=16, max_channel_size=48), **kw)
+        cnn_config = dict(channel_size=[16], kernel_size=[3], stride_size=[1], min_channel_size=16, max_channel_size=48)
+        if desc.get("names"):                # feature extractors with names of their own (not the keys of the sub-spaces)
+            cnn_config["name"] = desc["names"][0]
+            if kw.get("vector_space_mlp"):
+                kw["mlp_config"] = dict(hidden_size=[32], name=desc["names"][1])
+        return M["multi"](observation_space=_obs_space(desc.get("obs", "dict")), num_outputs=4, cnn_config=cnn_config, **kw)
     from agilerl.networks.actors import DeterministicActor, StochasticActor
     from agilerl.networks.q_networks import ContinuousQNetwork, QNetwork, RainbowQNetwork
     from agilerl.networks.value_networks import ValueNetwork
@@ -614,6 +618,8 @@ def plan_call(act: dict, rnd: random.Random, allow_explicit: bool = True, explic
     if leaf in ("add_latent_node", "remove_latent_node"):
         return ({"numb_new_nodes": k}, [], []) if explicit else ({}, [], [k])
     if leaf == "change_kernel":
+        if direct and not (2 <= l <= 4):             # the first layer / layers beyond the fourth are never drawn: name them
+            explicit = True
         if explicit:
             if explicit_kernel and rnd.random() < 0.5:
                 return {"hidden_layer": l - 1, "kernel_size": k}, [], []
@@ -635,7 +641,8 @@ def do_step(m, c: dict, method, *, kwargs=None, draws: Optional[Draws] = None, s
     """apply one mutation to the real object (optionally to a fresh clone, as Mutations.architecture_mutate does) and
     record the event.  `method` is a name or a function choosing one from the methods the object to be mutated
     advertises.  Returns (event, object to continue with)."""
-    ev: Dict[str, Any] = {"m": method if isinstance(method, str) else "?", "cloned": bool(clone_first)}
+    ev: Dict[str, Any] = {"m": method if isinstance(method, str) else "?", "cloned": bool(clone_first), "clone_failed": False}
+    orig = m
     if clone_first:
         try:
             m = m.clone()
@@ -644,9 +651,20 @@ def do_step(m, c: dict, method, *, kwargs=None, draws: Optional[Draws] = None, s
             a = project(m, c)
             sh = shapes_of(m)
             ev.update(m=(method if isinstance(method, str) else "clone"), pre=a, post=a, adv=_adv(m), spre=sh, spost=sh, kept={}, norm=norm_names(m), applied="None", ret={},
-                      raised=f"clone() before the mutation raised {type(e).__name__}: {str(e)[:200]}", codes_exact=True,
+                      raised=f"clone() before the mutation raised {type(e).__name__}: {str(e)[:200]}", codes_exact=True, clone_failed=True,
                       ob=dict(rebuild=False, forward=False, samefn=False, clone=False), detail={})
             return ev, m
+    try:
+        project(m, c)
+    except Exception as e:                                        # noqa: BLE001
+        # the clone is not an instance of the configuration any more (a sub-module went missing / was renamed)
+        a = project(orig, c)
+        sh = shapes_of(orig)
+        ev.update(m=(method if isinstance(method, str) else "clone"), pre=a, post=a, adv=_adv(orig), spre=sh, spost=sh, kept={}, norm=norm_names(orig),
+                  applied="None", ret={}, codes_exact=True, clone_failed=True,
+                  raised=f"clone() before the mutation returned a different kind of module: constructor description lacks {type(e).__name__}: {str(e)[:160]}",
+                  ob=dict(rebuild=False, forward=False, samefn=False, clone=False), detail={})
+        return ev, orig
     randomise(m, seed)
     ev["pre"] = project(m, c)
     ev["adv"] = _adv(m)
@@ -662,6 +680,9 @@ def do_step(m, c: dict, method, *, kwargs=None, draws: Optional[Draws] = None, s
     codes = Codes(m)
     raised = ""
     ret = None
+    if callable(kwargs):
+        kwargs = kwargs(m, method)
+        ev["explicit"] = {k: int(v) for k, v in kwargs.items()}
     try:
         fn = getattr(m, method)
         if draws is not None:
@@ -746,6 +767,38 @@ def replay_many(jobs):
 # ----------------------------------------------------------------------------------------------
 # M3: long random walks
 # ----------------------------------------------------------------------------------------------
+def explicit_args(rnd: random.Random, p: float = 0.35):
+    """argument choices for a walk step: with probability p the caller names the layer and / or the amount itself
+    (the values the code would draw from), otherwise everything is left to the method's own draws"""
+    import inspect
+
+    def choose(m, method):
+        if rnd.random() >= p:
+            return {}
+        owner = m
+        for part in method.split(".")[:-1]:
+            owner = getattr(owner, part, None)
+            if owner is None:
+                return {}
+        owner = getattr(owner, "wrapped", owner) if not hasattr(owner, method.split(".")[-1]) else owner
+        try:
+            params = inspect.signature(getattr(m, method)).parameters
+        except (TypeError, ValueError, AttributeError):
+            return {}
+        leaf = _leaf_name(method)
+        kw = {}
+        widths = getattr(owner, "hidden_size", None) if "node" in leaf else getattr(owner, "channel_size", None)
+        if "hidden_layer" in params and isinstance(widths, (list, tuple)) and len(widths) > 0 and rnd.random() < 0.8:
+            if leaf != "change_kernel" or len(widths) > 1:
+                kw["hidden_layer"] = rnd.randrange(len(widths))
+        if "numb_new_nodes" in params and rnd.random() < 0.7:
+            kw["numb_new_nodes"] = rnd.choice([8, 16, 32] if "latent" in leaf else [16, 32, 64])
+        if "numb_new_channels" in params and rnd.random() < 0.7:
+            kw["numb_new_channels"] = rnd.choice([8, 16, 32])
+        return kw
+    return choose
+
+
 def walk(desc: dict, depth: int, seed: int, mode: str) -> dict:
     """mode "cm": every step clones first (clone-and-mutate chain); "ip": in place; "mix": a seeded coin per step."""
     torch.set_num_threads(1)
@@ -756,9 +809,10 @@ def walk(desc: dict, depth: int, seed: int, mode: str) -> dict:
     c = cfg_of(m)
     events = []
     stale = False
+    choose = explicit_args(rnd)
     for i in range(depth):
         cf = mode == "cm" or (mode == "mix" and rnd.random() < 0.5)
-        ev, m = do_step(m, c, (lambda adv: rnd.choice(adv)), seed=seed * 1000 + i, clone_first=cf)
+        ev, m = do_step(m, c, (lambda adv: rnd.choice(adv)), kwargs=choose, seed=seed * 1000 + i, clone_first=cf)
         ev["after_latent"] = bool(stale and not ev["cloned"])
         stale = (stale and not ev["cloned"]) or _leaf_name(ev["m"]) in ("add_latent_node", "remove_latent_node")
         events.append(ev)
@@ -791,14 +845,14 @@ CONSTANTS
   Diag = @DIAG@
 CHECK_DEADLOCK FALSE
 """
-KEEP = ("pre", "post", "m", "applied", "adv", "raised", "spre", "spost", "kept", "norm", "ob")
+KEEP = ("pre", "post", "m", "applied", "adv", "raised", "spre", "spost", "kept", "norm", "ob", "clone_failed")
 
 # instance -> (MC cfg, dump cfg); the MC configurations decide the spec-level clauses, the dumps feed the replay
-MC_QUICK = ["mlp", "cnnd", "cnns", "lstm", "simba", "resnet", "multiv", "net", "netc"]
-MC_MORE = ["mlpn", "cnn", "cnn3", "multi"]
+MC_QUICK = ["mlp", "cnnd", "cnn3", "cnns", "lstm", "simba", "resnet", "multiv", "net", "netc"]
+MC_MORE = ["mlpn", "cnn", "multi"]
 # instance -> number of replayed steps in the quick tier (None = every edge)
-REPLAY_QUICK = {"mlp": 450, "cnnd": 400, "lstm": None, "simba": None, "resnet": None, "multiv": 300, "net": 500, "netc": 300}
-REPLAY_MORE = ["mlpn", "cnn3", "cnns", "multi"]
+REPLAY_QUICK = {"mlp": 450, "cnnd": 400, "cnn3": 250, "lstm": None, "simba": None, "resnet": None, "multiv": 300, "net": 500, "netc": 300}
+REPLAY_MORE = ["mlpn", "cnns", "multi"]
 
 CLAUSE_TAGS = [
     ("the walk is a chain", "chain"),
@@ -825,7 +879,8 @@ CLAUSE_TAGS = [
 def walk_descs(quick: bool) -> List[dict]:
     ds = [dict(what=w) for w in ("mlp", "cnn", "cnn3d", "lstm", "simba", "resnet")]
     ds += [dict(what="multi", obs="dict", kw=dict(vector_space_mlp=True), tag="vsm"), dict(what="multi", obs="tuple"),
-           dict(what="multi", obs="dictseq", kw=dict(recurrent=True), tag="lstm")]
+           dict(what="multi", obs="dictseq", kw=dict(recurrent=True), tag="lstm"),
+           dict(what="multi", obs="dict", kw=dict(vector_space_mlp=True), names=["vision", "vmlp"], tag="named")]
     for cls in ("QNetwork", "RainbowQNetwork", "ContinuousQNetwork", "ValueNetwork", "DeterministicActor", "StochasticActor"):
         for obs in ("vector", "image", "dict", "tuple", "sequence"):
             if obs == "sequence" and cls in ("RainbowQNetwork", "ContinuousQNetwork"):
@@ -1048,9 +1103,9 @@ def signature(t, v) -> str:
     # in place on an object whose sub-modules were re-created by an earlier latent mutation (no clone since)
     qual = ":inplace-after-latent" if ev.get("after_latent") else ""
     exc = ""
-    src = ev["raised"] if tag == "raised" else ev.get("detail", {}).get(tag, "")
+    src = ev["raised"] if (tag == "raised" or (tag == "clone" and ev.get("clone_failed"))) else ev.get("detail", {}).get(tag, "")
     if src:
-        exc = ":" + src.replace("clone() before the mutation raised ", "clone-").replace("clone raised ", "").split(":")[0].strip().replace(" ", "-")[:40]
+        exc = ":" + src.replace("clone() before the mutation raised ", "clone-").replace("clone() before the mutation returned a different kind of module", "clone-differs").replace("clone raised ", "").split(":")[0].strip().replace(" ", "-")[:40]
     return f"{base}:{target}{qual}{exc}"
 
 
